@@ -153,6 +153,7 @@ func runRead(s ReadScript, v *vt.V) {
 	}
 	seq := ops.NewEnv(u, ociunify.New(r0, r1, &ociunify.Options{ReadPolicy: ociunify.ReadSequential}))
 	con := ops.NewEnv(u, ociunify.New(r0, r1, &ociunify.Options{ReadPolicy: ociunify.ReadConcurrent}))
+	seq.HoldListings, con.HoldListings = true, true // a listing sequence is run a second time after the next read
 	differ, conflict, oneSided := 0, 0, 0
 	for i, op := range s.Read {
 		a, b := e0.Exec(op), e1.Exec(op)
@@ -160,6 +161,10 @@ func runRead(s ReadScript, v *vt.V) {
 			policy := []string{"sequential", "concurrent"}[pi]
 			g := env.Exec(op)
 			desc := fmt.Sprintf("read %d %+v (%s policy, slow=%d): member0 err=%q member1 err=%q", i, op, policy, s.Slow, a.Err, b.Err)
+			if g.Held != "" {
+				v.Failf("listing-not-repeatable", "%s: nothing was written in between, and %s", desc, g.Held)
+				return
+			}
 			switch op.K {
 			case "getBlob", "resolveBlob", "getBlobRange", "getManifest", "resolveManifest":
 				if op.K == "getBlobRange" && (op.O0 < 0 || (op.O1 >= 0 && op.O1 <= op.O0)) {
